@@ -24,7 +24,7 @@ theorem cloneLoop_nofault (w : World) (src dst : Nat) (s n : VecSt) (i k : Nat) 
     ∃ n', cloneLoop src dst i k w =
         ({ w with vecs := w.vecs.set dst n', created := w.created + k,
                   ev := (cloneEvents s i k w.created).reverse ++ w.ev }, .ok ()) ∧
-      n'.len = n.len ∧ n'.cap = n.cap ∧ n'.live = true ∧ n'.ty = n.ty ∧ n'.bk = n.bk ∧
+      n'.len = n.len ∧ n'.cap = n.cap ∧ n'.live = true ∧ n'.ty = n.ty ∧ n'.bk = n.bk ∧ n'.cloneable = n.cloneable ∧
       n.cells.length ≤ n'.cells.length ∧
       (∀ j, j < i → n'.cells.get j = n.cells.get j) ∧
       (∀ j, j < k → n'.cells.get (i + j) = .val (w.created + j)) :=
@@ -126,11 +126,10 @@ clones, made in order - of the same element type, on the same kind of storage, a
 (`CloneStep.cloned`); every other component, the source included, is unchanged. The two alternatives are the storage's:
 it cannot be built (nothing happens) or the room cannot be reserved (the new, empty vector is dropped again). -/
 theorem clone_refines (cfg : Cfg) (w : World) (ms : RefineMulti.MSpec) (h : RefineMulti.MRel w ms) (v : Nat)
-    (a : RefineMulti.AVec) (hv : ms.vecs[v]? = some (some a)) (d : VecSt) (hd : w.vecs[v]? = some d)
-    (hcl : d.cloneable = true) :
+    (a : RefineMulti.AVec) (hv : ms.vecs[v]? = some (some a)) (hcl : a.cloneable = true) :
     ∃ ms', RefineMulti.CloneStep ms a ms' ∧ RefineMulti.MRel (World.step cfg (.clone v) w).1 ms' ∧
       (World.step cfg (.clone v) w).2.notUb :=
-  RefineMulti.clone_refines cfg w ms h v a hv d hd hcl
+  RefineMulti.clone_refines cfg w ms h v a hv hcl
 
 /-- **… and stays independent**: from a world that shows the abstract vectors - for instance right after a `clone()` -
 any history of operations on *any* of the vectors, interleaved in any order, changes each abstract vector only by the
